@@ -12,7 +12,9 @@
      3 'latest' wrong: result does not match / is after the limit / a newer matching snapshot within
        the limit exists / nothing found although one exists;
      4 grouping: a snapshot is in no or several groups, a member's key differs from its group's key,
-       or two groups have the same key. *)
+       or two groups have the same key;
+     5 explicit ids: a named snapshot is not delivered, or (without 'latest') something else / a
+       snapshot twice is delivered. *)
 From Restic Require Import Base.Prelude.
 
 Module C24m.
@@ -50,6 +52,35 @@ Definition latest_step (f : filt) (latest : option snap) (s : snap) : option sna
   else if negb (matches f s) then latest
   else Some s.
 Definition find_latest (f : filt) (l : list snap) : option snap := fold_left (latest_step f) l None.
+
+(* ---- FindAll with explicit snapshot arguments ----
+   An argument is "latest", "latest:<sub>", or an id / id prefix (resolved by FindSnapshot: C57),
+   possibly with a ":<sub>" suffix.  [AId r sub]: r = Some id when the id resolves, None when
+   FindSnapshot fails.  The callback is called with a snapshot or with an error; here it always
+   continues. *)
+Inductive arg := ALatest | ALatestSub | AId (r : option N) (sub : bool).
+Inductive ev := EvSnap (i : N) | EvErr.
+
+Definition memN (i : N) (l : list N) : bool := existsb (N.eqb i) l.
+Definition filter_empty (f : filt) : bool := is_nil (f_hosts f) && is_nil (f_tags f) && is_nil (f_paths f).
+
+Fixpoint ids_go (f : filt) (l : list snap) (used : bool) (ids : list N) (args : list arg) : list ev :=
+  match args with
+  | [] => if negb used && negb (filter_empty f) then [EvErr] else []
+  | ALatest :: r =>
+      if used then ids_go f l used ids r
+      else match find_latest f l with
+           | Some s => EvSnap (sn_id s) :: ids_go f l true (sn_id s :: ids) r
+           | None => EvErr :: ids_go f l true ids r
+           end
+  | ALatestSub :: r => EvErr :: ids_go f l used ids r
+  | AId None _ :: r => EvErr :: ids_go f l used ids r
+  | AId (Some i) true :: r => EvErr :: ids_go f l used ids r
+  | AId (Some i) false :: r =>
+      if memN i ids then ids_go f l used ids r
+      else EvSnap i :: ids_go f l used (i :: ids) r
+  end.
+Definition find_ids (f : filt) (l : list snap) (args : list arg) : list ev := ids_go f l false [] args.
 
 (* ---- grouping ---- *)
 Fixpoint str_leb (a b : bytes) : bool :=
@@ -89,10 +120,22 @@ Definition group_by (o : gopts) (l : list snap) : list (gkey * list N) :=
 Inductive case :=
 | KFindAll (f : filt) (l : list snap) (obs : list N)            (* ids in callback order *)
 | KLatest (f : filt) (l : list snap) (obs : option N)           (* l in processing order *)
-| KGroup (o : gopts) (l : list snap) (obs : list (gkey * list N)).
+| KGroup (o : gopts) (l : list snap) (obs : list (gkey * list N))
+| KIds (f : filt) (l : list snap) (args : list arg) (obs : list ev).
 
 Fixpoint lookup (i : N) (l : list snap) : option snap :=
   match l with [] => None | s :: r => if N.eqb (sn_id s) i then Some s else lookup i r end.
+
+Definition ev_eqb (a b : ev) : bool :=
+  match a, b with EvSnap i, EvSnap j => N.eqb i j | EvErr, EvErr => true | _, _ => false end.
+Definition snaps_of (es : list ev) : list N :=
+  flat_map (fun e => match e with EvSnap i => [i] | EvErr => [] end) es.
+Definition plain_ids (args : list arg) : list N :=
+  flat_map (fun a => match a with AId (Some i) false => [i] | _ => [] end) args.
+Definition has_latest (args : list arg) : bool :=
+  existsb (fun a => match a with ALatest => true | _ => false end) args.
+Fixpoint nodupN (l : list N) : bool :=
+  match l with [] => true | x :: r => negb (memN x r) && nodupN r end.
 
 Fixpoint remove_id (i : N) (l : list N) : option (list N) :=
   match l with
@@ -140,6 +183,16 @@ Definition oracle_code (c : case) : nat :=
   | KFindAll f l obs => if perm_ids obs (map sn_id (filter (matches f) l)) then 0%nat else 2%nat
   | KLatest f l obs => if latest_ok f l obs then 0%nat else 3%nat
   | KGroup o l obs => if group_ok o l obs then 0%nat else 4%nat
+  | KIds f l args obs =>
+      (* every named, resolvable plain id is delivered, nothing else except 'latest' (which must be
+         a valid answer for the filter), and without 'latest' nothing is delivered twice *)
+      let sn := snaps_of obs in
+      let want := plain_ids args in
+      let lat := if has_latest args then filter (fun i => negb (memN i want)) sn else [] in
+      if negb (forallb (fun i => memN i sn) want) then 5%nat
+      else if negb (has_latest args) && negb (forallb (fun i => memN i want) sn && nodupN sn) then 5%nat
+      else if negb (forallb (fun i => latest_ok f l (Some i)) lat) then 3%nat
+      else 0%nat
   end.
 Definition check_C24 (c : case) : bool := Nat.eqb (oracle_code c) 0.
 
@@ -153,6 +206,7 @@ Definition model_agrees (c : case) : bool :=
   | KLatest f l obs => option_eqb N.eqb obs (option_map sn_id (find_latest f l))
   | KGroup o l obs => let m := group_by o l in
                       groups_sub obs m && groups_sub m obs && (length obs =? length m)%nat
+  | KIds f l args obs => list_eqb ev_eqb obs (find_ids f l args)
   end.
 
 Definition check_case (c : case) : nat :=
